@@ -95,6 +95,42 @@ Proof. show_differ. Qed.
 Lemma W2_fixed_differs : differ fixed W2 W2_a_first W2_b_first.
 Proof. show_differ. Qed.
 
+(** ** (3) one fork counter per EXECUTION instead of one per parent job (seeded change C07c).
+    main() = [P(), Q()],  P() = [use(H("h0"))],  Q() = [use(H("h0")), 0]: two parents each pass their own fresh,
+    un-keyed H("h0") — the same Handle state — to one child.  Every Handle state is passed to one call per
+    parent.  With one counter per parent both forks are first forks; with one counter per execution the
+    parent that finishes first gives its child key 1, the other key 2. *)
+Definition W4 : list texpr :=
+  [TL [TCall 1 []; TCall 2 []]; TL [TCall 3 [TH 0]]; TL [TCall 3 [TH 0]; TC (VInt 0)]; TC (VInt 8)].
+(* P completes first: job 3 = use under P, job 4 = use under Q *)
+Definition W4_p_first : list op :=
+  [OEnter 0 DStart; ODone 0; OEnter 1 DStart; OEnter 2 DStart; ODone 1; OEnter 3 DStart; ODone 2; OEnter 4 DStart;
+   ODone 3; ODone 4; OResolve 3; OResolve 4; OResolve 1; OResolve 2; OResolve 0].
+(* Q completes first: job 3 = use under Q, job 4 = use under P *)
+Definition W4_q_first : list op :=
+  [OEnter 0 DStart; ODone 0; OEnter 1 DStart; OEnter 2 DStart; ODone 2; OEnter 3 DStart; ODone 1; OEnter 4 DStart;
+   ODone 3; ODone 4; OResolve 3; OResolve 4; OResolve 1; OResolve 2; OResolve 0].
+
+Lemma W4_per_execution_differs : differ per_execution W4 W4_p_first W4_q_first.
+Proof. show_differ. Qed.
+
+Lemma W4_per_parent_agrees : agree fixed W4 W4_p_first W4_q_first.
+Proof. show_agree. Qed.
+
+(** both executions satisfy the premise of the theorem for the per-parent counter *)
+Lemma W4_linear :
+  (exists s, run per_execution (tbody W4) (init 0 []) W4_p_first = Some s /\ linear_b s = true) /\
+  (exists s, run per_execution (tbody W4) (init 0 []) W4_q_first = Some s /\ linear_b s = true).
+Proof.
+  split.
+  - destruct (run per_execution (tbody W4) (init 0 []) W4_p_first) as [s|] eqn:R; [|vm_compute in R; discriminate].
+    exists s. split; auto. assert (E : Some s = run per_execution (tbody W4) (init 0 []) W4_p_first) by (symmetry; exact R).
+    vm_compute in E. injection E as ->. vm_compute. reflexivity.
+  - destruct (run per_execution (tbody W4) (init 0 []) W4_q_first) as [s|] eqn:R; [|vm_compute in R; discriminate].
+    exists s. split; auto. assert (E : Some s = run per_execution (tbody W4) (init 0 []) W4_q_first) by (symmetry; exact R).
+    vm_compute in E. injection E as ->. vm_compute. reflexivity.
+Qed.
+
 (** the fork keys behind the difference *)
 Example W1_keys :
   option_map (fun s => map job_pre s) (run shipped (tbody W1) (init 0 []) W1_serial)
